@@ -360,8 +360,8 @@ def probe_like(rng, call):
         if what == "min_count":
             p["min_count"] = rng.choice([0, 1, 2, 3])
         elif what == "labels" and p.get("method") != "blockwise":
-            k = max(p["labels"]) + 1
-            p["labels"] = [(l + 1) % k for l in p["labels"]]
+            k = max([l for l in p["labels"] if l is not None] or [0]) + 1
+            p["labels"] = [None if l is None else (l + 1) % k for l in p["labels"]]
         elif what == "vals":
             p["vals"] = [None if v is None else v + 1 for v in p["vals"]]
         elif what == "func" and isinstance(p["func"], str) and p["func"] in ("sum", "nansum", "max", "nanmax", "mean", "nanmean"):
